@@ -330,7 +330,12 @@ fn extract_source_map<R: Read>(
                 let final_path = if source_path.is_absolute() {
                     source_path
                 } else {
-                    let folder = file_reader.parent(Path::new(file_path)).unwrap();
+                    let folder = file_reader.parent(Path::new(file_path)).ok_or_else(|| {
+                        std::io::Error::new(
+                            std::io::ErrorKind::NotFound,
+                            "Parent folder not found for the source file",
+                        )
+                    })?;
                     folder.join(source_path)
                 };
 
